@@ -670,7 +670,10 @@ def run(tier, seed, replay):
                 "compute_dynamics_with_field, compute_gradient_and_dynamics (both record_all; "
                 "num_steps given / zero / not given / too long next to finite process tensors) and "
                 "PtTebd compute(end_step) histories (continuations, repeats, start steps) vs "
-                "the TimeGrid model, time lists bit-exact.  Non-trivial = not a zero-step count; "
+                "the TimeGrid model, time lists bit-exact; always-run relations on real objects: views "
+                "(.times/.states/.fields) read between compute calls have equal lengths, a failing user "
+                "callable propagates under every progress type, a run resumed after a transient failure "
+                "holds the whole grid.  Non-trivial = not a zero-step count; "
                 "distinct = distinct protocol line.")
     res.assumptions = [
         "binary64 model: round-to-nearest-even on rationals, no overflow/subnormal/NaN",
